@@ -331,12 +331,39 @@ SCRIPTS = {
 }
 
 
+def shm_churn(ctx, exe, nproc, iters, ownpct, st, tag):
+    """several processes loop p_shm_new(name, 4096) / maybe take_ownership / free on one name: owner frees race with the two shm_open calls of
+    openers and creators.  Whatever the interleaving, afterwards the documented clean-up must work and the next p_shm_new must be fresh."""
+    name = "vfC07-%d-%d-churn-%s" % (os.getpid(), ctx.seed, tag)
+    ags = [agents.Agent(exe, name="sc%d" % i) for i in range(nproc)]
+    try:
+        t0 = int(ags[0].cmd("now").split()[1]) + 20_000_000
+        for a in ags:
+            a.send("at %d shmchurn %s %d %d" % (t0, name, iters, ownpct))
+        for a in ags:
+            try:
+                r = a.recv(timeout=120)
+            except agents.AgentTimeout:
+                ctx.violation("churn symptom=never-finished", "%d processes looping p_shm_new / take_ownership(%d%%) / free on one name did not finish" % (nproc, ownpct), None)
+                return
+            if r.startswith("ok"):
+                st["churn_rounds"] += int(r.split()[1])
+                st["churn_open_failures"] += int(r.split()[2])
+    except agents.AgentDied as e:
+        ctx.violation("churn symptom=process-died", str(e)[:300], None)
+        return
+    finally:
+        for a in ags:
+            a.kill()
+    recover(ctx, exe, name, "after=churn-of-%d-processes" % nproc, st)
+
+
 def recover(ctx, exe, name, label, st):
     ag = agents.Agent(exe, name="recover")
     try:
         r = ag.cmd("shmnew 0 %s 4096 w" % name)
         if not r.startswith("ok"):
-            ctx.violation("crash-point %s symptom=cleanup-cannot-open" % label, "after the kill p_shm_new fails (%s): the documented clean-up cannot obtain a handle; segment file size %s" %
+            ctx.violation("crash-point %s symptom=cleanup-cannot-open" % label, "p_shm_new fails (%s) at the start of the documented clean-up: no handle can be obtained; segment file size %s" %
                           (r, os.path.getsize(agents.shm_path(name)) if os.path.exists(agents.shm_path(name)) else "absent"), None)
             return
         ag.cmd("shmown 0")
@@ -447,6 +474,8 @@ def run(ctx):
         lock_work(ctx, plain, np_, it, st, tag)
     for (np_, rounds) in ([(2, 15), (4, 15)] if q else [(2, 300), (4, 300), (8, 200), (16, 100)]):
         first_open(ctx, plain, np_, rounds, 200, st)
+    for (np_, it, own, tag) in ([(3, 1500, 40, "a"), (4, 1500, 15, "b")] if q else [(2, 20000, 50, "a"), (4, 20000, 30, "b"), (8, 10000, 15, "c"), (16, 5000, 10, "d")]):
+        shm_churn(ctx, plain, np_, it, own, st, tag)
     calls = {}
     crash_points(ctx, exe, st, list(SCRIPTS), calls)
     cov = ctx.coverage
